@@ -224,6 +224,36 @@ CLAIMED["C14"] = {
             "order, hash verification (FFI).",
 }
 
+CLAIMED["C08"] = {
+    "text": "PARTIAL (the schedule quantifier of the property is NOT "
+            "decided): one step of the server connection's state machine "
+            "from an arbitrary state -- version negotiation for every 8-byte "
+            "header and every version state (first header fixes the version "
+            "iff <= 2, else Error code 4 under version 2; later mismatch -> "
+            "Error code 8 under the negotiated version; the Error PDU "
+            "encapsulates exactly the offending header; a refused header "
+            "leaves the state unchanged) and the length check for every "
+            "header and expected length (Error code 3). Thorough tier: "
+            "Connection::recv on one unfragmented 12-byte client stream per "
+            "PDU type with all other bytes and the version state arbitrary "
+            "(query recognised / Error PDU per reference, exactly 8 or 12 "
+            "bytes consumed), and the byte-exact responses of reset / serial "
+            "/ notify for 0..2 arbitrary IPv4 origins, versions 0..2, source "
+            "ready or not, diff or not.",
+    "ref": "§3 C08",
+    "note": "Hooks: rtr::server::verif (Conn wrapper of the private "
+            "Connection, VQuery mirror of Query, notify future driven by a "
+            "solver-chosen schedule instead of tokio's broadcast receiver, "
+            "which Kani cannot compile), pdu::Error::verif_from_octets. NOT "
+            "decided: fragmentation of the client bytes and interleaving of "
+            "notifications with their arrival -- one unfragmented recv call "
+            "costs 18 GB / 4 min (state in nested coroutines), a second call "
+            "or one Pending runs out of 45 GB; the cancellation defect the "
+            "property text mentions (select() dropping a half-read header) "
+            "is therefore not shown by any query and not listed as a "
+            "finding.",
+}
+
 NOT_APPLICABLE = {
     "C01": "needs a Cert value: decoding one hits a Kani 0.68 internal "
            "compiler error (IP-resources decoder), constructing one needs a "
@@ -237,14 +267,12 @@ NOT_APPLICABLE = {
            "bytes, which does not amount to a claim about arbitrary input",
     "C05": "builders produce CMS objects / certificates whose decoders "
            "cannot be compiled by Kani (ICE) and whose signing is aws-lc "
-           "FFI; the content builders rely on BytesMut/Captured buffers "
-           "whose queries did not finish",
+           "FFI; the one certificate-free piece (RoaBuilder::to_attestation "
+           "followed by iterating the built address list, harness kept in "
+           "harness/src/c05.rs) timed out after 10 min even on a fully "
+           "concrete prefix, so no query for this property finished",
     "C06": "every path of the RTR client goes through tokio::time::timeout "
            "(thread-local coop budget): Kani ICE at compile time",
-    "C08": "the property quantifies over notify interleavings "
-           "(tokio broadcast::Receiver::recv: Kani ICE) and fragmentation "
-           "through Connection::recv, whose reader stack already does not "
-           "finish for C07's variable-length PDUs",
     "C10": "needs SignedMessage / IdCert values: construction and "
            "validation run through aws-lc FFI and bcder capture buffers; "
            "the shared piece that is decidable (SignedAttrs::encode_verify) "
